@@ -31,8 +31,81 @@ fn o(x: Option<u64>) -> String {
     x.map(|v| format!("some {}", v)).unwrap_or("none".into())
 }
 
+/// a mint account laid out as the token programs lay it out: classic SPL (kind 0), Token-2022 without extensions (1),
+/// Token-2022 with a TransferFeeConfig whose older fee is in force and whose newer fee activates at `newer_epoch` (2)
+pub fn mint_bytes(kind: u64, older: (u16, u64), newer_epoch: u64, newer: (u16, u64)) -> (anchor_lang::prelude::Pubkey, Vec<u8>) {
+    use anchor_spl::token_2022::spl_token_2022 as t22;
+    use t22::extension::{transfer_fee::TransferFeeConfig, BaseStateWithExtensionsMut, ExtensionType, StateWithExtensionsMut};
+    use solana_program::program_pack::Pack;
+    if kind < 2 {
+        let mut data = vec![0u8; anchor_spl::token::spl_token::state::Mint::LEN];
+        let mint = anchor_spl::token::spl_token::state::Mint { is_initialized: true, decimals: 6, ..Default::default() };
+        anchor_spl::token::spl_token::state::Mint::pack(mint, &mut data).unwrap();
+        return (if kind == 0 { anchor_spl::token::spl_token::ID } else { t22::ID }, data);
+    }
+    let len = ExtensionType::try_calculate_account_len::<t22::state::Mint>(&[ExtensionType::TransferFeeConfig]).unwrap();
+    let mut data = vec![0u8; len];
+    {
+        let mut st = StateWithExtensionsMut::<t22::state::Mint>::unpack_uninitialized(&mut data).unwrap();
+        st.init_account_type().unwrap();
+        let cfg = st.init_extension::<TransferFeeConfig>(false).unwrap();
+        *cfg = TransferFeeConfig {
+            transfer_fee_config_authority: Default::default(),
+            withdraw_withheld_authority: Default::default(),
+            withheld_amount: 0.into(),
+            older_transfer_fee: TransferFee { epoch: 0.into(), maximum_fee: older.1.into(), transfer_fee_basis_points: older.0.into() },
+            newer_transfer_fee: TransferFee { epoch: newer_epoch.into(), maximum_fee: newer.1.into(), transfer_fee_basis_points: newer.0.into() },
+        };
+        st.base = t22::state::Mint { is_initialized: true, decimals: 6, ..Default::default() };
+        st.pack_base();
+    }
+    (t22::ID, data)
+}
+
+/// `tf.mint` line: the three mint-level helpers of utils/general.rs (REAL functions on a really laid-out mint account) and
+/// what the REAL token program's TransferFeeConfig withholds in that epoch
+pub fn mint_line(rng: &mut Rng) -> String {
+    use anchor_lang::prelude::*;
+    use anchor_spl::token_2022::spl_token_2022 as t22;
+    use t22::extension::{transfer_fee::TransferFeeConfig, BaseStateWithExtensions, StateWithExtensions};
+    let kind = match rng.below(8) { 0 => 0, 1 => 1, _ => 2 };
+    let bps_ok = |rng: &mut Rng| -> u16 { match rng.below(6) { 0 => 0, 1 => 1, 2 => 10000, 3 => 100, _ => rng.below(10001) as u16 } };
+    let max_of = |rng: &mut Rng| -> u64 { match rng.below(5) { 0 => 0, 1 => u64::MAX, 2 => rng.below(1000), _ => rng.u64_mixed() } };
+    let older = (bps_ok(rng), max_of(rng));
+    let newer = if rng.chance(1, 5) { older } else { (bps_ok(rng), max_of(rng)) };
+    let newer_epoch = match rng.below(4) { 0 => 0, 1 => u64::MAX, _ => rng.below(1000) };
+    // the epoch asked about: mostly at / just before / just after the activation epoch
+    let epoch = match rng.below(8) { 0 | 1 | 2 => newer_epoch, 3 => newer_epoch.wrapping_sub(1), 4 => newer_epoch.saturating_add(1), 5 => 0, _ => rng.below(2000) };
+    let amt = if rng.chance(1, 3) { rng.below(1_000_000_000_000) } else { rng.u64_mixed() };
+    let (owner, data) = mint_bytes(kind, older, newer_epoch, newer);
+    let key = Pubkey::new_from_array([9u8; 32]);
+    let call = |f: &dyn Fn(AccountInfo) -> String| -> String {
+        let mut d = data.clone();
+        let mut lam = 1u64;
+        let ai = AccountInfo::new(&key, false, false, &mut lam, &mut d, &owner, false, 0);
+        f(ai)
+    };
+    let pre = call(&|ai| match std::panic::catch_unwind(std::panic::AssertUnwindSafe(|| marginfi::utils::calculate_pre_fee_spl_deposit_amount(ai, amt, epoch))) {
+        Ok(Ok(v)) => format!("some {}", v), _ => "none".into() });
+    let post = call(&|ai| match std::panic::catch_unwind(std::panic::AssertUnwindSafe(|| marginfi::utils::calculate_post_fee_spl_deposit_amount(ai, amt, epoch))) {
+        Ok(Ok(v)) => format!("some {}", v), _ => "none".into() });
+    let nz = call(&|ai| match std::panic::catch_unwind(std::panic::AssertUnwindSafe(|| marginfi::utils::nonzero_fee(ai, epoch))) {
+        Ok(Ok(v)) => format!("{}", v as u8), _ => "none".into() });
+    // the token program's own arithmetic on the same bytes
+    let withheld = if kind < 2 { "some 0".to_string() } else {
+        let st = StateWithExtensions::<t22::state::Mint>::unpack(&data).unwrap();
+        let cfg = st.get_extension::<TransferFeeConfig>().unwrap();
+        o(cfg.calculate_epoch_fee(epoch, amt))
+    };
+    format!("tf.mint {} {} {} {} {} {} {} {} => {} {} {} {}", kind, older.0, older.1, newer_epoch, newer.0, newer.1, epoch, amt, pre, post, nz, withheld)
+}
+
 pub fn gen(rng: &mut Rng, n: usize, out: &mut Vec<String>) {
     for i in 0..n {
+        if i % 3 == 2 {
+            out.push(mint_line(rng));
+            continue;
+        }
         let (bps, max) = gen_cfg(rng);
         let amt = rng.u64_mixed();
         let t = tf(bps, max);
